@@ -303,6 +303,33 @@ func c02Check(ci any, o *core.Obs) {
 			i += n
 		}
 		ps = append(ps, pathFrom(c.P[start:]))
+		// every second pair of neighbouring elements is merged into one element with two sub-paths
+		// ("already split" is not required of the elements)
+		if len(ps) >= 2 {
+			var merged canvas.Paths
+			for i := 0; i < len(ps); i++ {
+				if i%4 == 0 && i+1 < len(ps) {
+					merged = append(merged, pathFrom(append(append([]float64(nil), ps[i].Data()...), ps[i+1].Data()...)))
+					i++
+				} else {
+					merged = append(merged, ps[i])
+				}
+			}
+			ps = merged
+		}
+		before := append(canvas.Paths(nil), ps...)
+		var beforeData [][]float64
+		for _, q := range ps {
+			beforeData = append(beforeData, append([]float64(nil), q.Data()...))
+		}
+		defer func() {
+			for i := range before {
+				if ps[i] != before[i] || !bitsEqual(ps[i].Data(), beforeData[i]) {
+					o.Fail("side-effect:Paths.Settle", "Paths.Settle replaced or modified element %d of the caller's Paths: %s became %s", i, dstr(beforeData[i]), pstr(ps[i]))
+					break
+				}
+			}
+		}()
 		var SP *canvas.Path
 		entryP := "Paths.Settle(" + ruleNames[c.Rule] + ")"
 		if !o.Call("Paths.Settle", func() { SP = ps.Settle(rule) }) {
